@@ -132,6 +132,7 @@ impl Templates {
         named.push(("missing", E::missing_field(PH).to_string()));
         named.push(("unknown", E::unknown_field(PH).to_string()));
         named.push(("shape", E::unsupported_shape(PH).to_string()));
+        named.push(("shapeexp", E::unsupported_shape_with_expected(PH, &"e1 or e2").to_string()));   // a message that ends in a full stop
         named.push(("format", E::unsupported_format(PH).to_string()));
         named.push(("type", E::unexpected_type(PH).to_string()));
         named.push(("value", E::unknown_value(PH).to_string()));
@@ -232,4 +233,30 @@ pub fn render_symbolic(t: &Templates, s: &str) -> String {
     }
     out.push_str(rest);
     out
+}
+
+
+// ---------------------------------------------------------------------------------------------------
+// a panic that escapes every `catch` ends the harness: say where it came from, so that the driver can tell a
+// panic of the code under test (a finding) from a broken assumption of the harness itself (a tool error)
+static LAST_PANIC: std::sync::Mutex<Option<(String, String)>> = std::sync::Mutex::new(None);
+
+pub fn install_panic_hook() {
+    let loud = std::env::var("VH_DEBUG").is_ok();
+    std::panic::set_hook(Box::new(move |info| {
+        let at = info.location().map(|l| format!("{}:{}", l.file(), l.line())).unwrap_or_default();
+        let msg = if let Some(s) = info.payload().downcast_ref::<&str>() { s.to_string() } else if let Some(s) = info.payload().downcast_ref::<String>() { s.clone() } else { String::new() };
+        if loud { eprintln!("panic at {}: {}", at, msg); }
+        if let Ok(mut g) = LAST_PANIC.lock() { *g = Some((at, msg)); }
+    }));
+}
+
+/// Run the harness's real main; an escaped panic is reported as the last stdout line and exit status 3.
+pub fn run_main(f: fn()) {
+    install_panic_hook();
+    if std::panic::catch_unwind(f).is_err() {
+        let (at, msg) = LAST_PANIC.lock().ok().and_then(|g| g.clone()).unwrap_or_default();
+        println!("{}", serde_json::json!({"fatal_panic": msg, "at": at}));
+        std::process::exit(3);
+    }
 }
